@@ -224,8 +224,9 @@ def run(ctx, known, built):
                 else:
                     exp = None
                 r["_tree"] = tree if r["enc"] == "Ok" else None
-                items.append((r["case"], packed([tree]) if r["enc"] == "Ok" else packed([[7]]), r["reparse"]))
-            f.write(";\n".join("(%s,%s)" % (c, packed_pair(t, rp)) for (c, t, rp) in items))
+                flags = [int("F3" in r["classes"]), int("advance-subnormal" in r["classes"]), int("empty-contour" in r["classes"])]
+                items.append((r["case"], packed([tree]) if r["enc"] == "Ok" else packed([[7]]), r["reparse"], flags))
+            f.write(";\n".join("(%s,%s)" % (c, packed_pair(t, rp, fl)) for (c, t, rp, fl) in items))
             f.write("].\nEval vm_compute in mismatches_packed run_c02 cases.\n")
         files.append(vf)
         shard_rows[vf] = part
@@ -270,7 +271,7 @@ def run(ctx, known, built):
         ctx.samples.append({"options": r["opts"], "verdict": r["verdict"], "glif": bytes.fromhex(r["bytes"]).decode("utf-8", "replace")[:500]})
 
 
-def packed_pair(tree_packed, reparse_packed):
+def packed_pair(tree_packed, reparse_packed, flags=(0, 0, 0)):
     """expected dump = L_[tree; reparse]: both parts are already packed streams; re-pack as one list"""
     def unpack(s):
         ints = [int(x) for x in s.strip("[]").split(";")]
@@ -278,7 +279,9 @@ def packed_pair(tree_packed, reparse_packed):
         for v in ints[1:]:
             out.extend(v.to_bytes(7, "little"))
         return bytes(out[:n])
-    body = bytearray([2]) + unpack(tree_packed)[1:-1] + unpack(reparse_packed) + bytearray([3])
+    fl = bytearray()
+    ser(list(flags), fl)
+    body = bytearray([2]) + unpack(tree_packed)[1:-1] + unpack(reparse_packed) + fl + bytearray([3])
     ints = [len(body)]
     for i in range(0, len(body), 7):
         ints.append(int.from_bytes(body[i:i + 7], "little"))
